@@ -1,5 +1,6 @@
 SPECIFICATION MCSpec
-CONSTANTS MaxLen = 3
+CONSTANTS FirstSyms = {0, 1, 55, 56, 127, 128, 129, 130, 183, 184, 185, 191, 192, 193, 194, 247, 248, 249, 255}
+          MaxLen = 3
           FillBelow = 3
 INVARIANTS Canonical Agreement Helpers Emit
 CHECK_DEADLOCK FALSE
